@@ -39,8 +39,8 @@ CHECKS = {
  "C08": dict(
   technique="SMT (z3 QF_BV) over the S-grammar encoding of xml_xpath::expr::parse against a scannerless XPath 1.0 reference recognizer, one query per exact length plus keyword templates; operator sites checked structurally with solver reachability; eval_predicate executed by the S-kernel (z3 FP); counterexamples replayed",
   category="model_checking",
-  text="For every string of <= N scalar values (N=6 quick / 8 thorough) and for templates carrying the long keywords (axis names, processing-instruction, node types, predicates, calls, operator chains) z3 decides both inclusions: every expression of the strict XPath 1.0 reference (optional white space between tokens, abbreviated and unabbreviated steps, node-type tests where a step may begin, redundant parentheses, the longest-token rule) is accepted completely, and everything accepted is in the lenient reference. Every binary operator token sits in the production of its XPath precedence level, operands come from the next level, and each site is reachable. [n] is decided equal to [position() = n] for every f64 n and every position <= 2^53 by symbolic execution of eval_predicate.",
-  note="Partial: equalities between evaluator runs on documents (// vs descendant-or-self::node(), ., .., @, omitted child::) and left-associativity of the evaluator folds need the evaluator over a live document and are outside. The operator-name-boundary deviation is a listed known finding.",
+  text="For every string of <= N scalar values (N=6 quick / 8 thorough) and for templates carrying the long keywords (axis names, processing-instruction, node types, predicates, calls, operator chains) z3 decides both inclusions: every expression of the strict XPath 1.0 reference (optional white space between tokens, abbreviated and unabbreviated steps, node-type tests where a step may begin, redundant parentheses, the longest-token rule) is accepted completely, and everything accepted is in the lenient reference. Every binary operator token sits in the production of its XPath precedence level, operands come from the next level, and each site is reachable. [n] is decided equal to [position() = n] for every f64 n and every position <= 2^53 by symbolic execution of eval_predicate. Each abbreviation (., .., @t, omitted child::, and // inside a path, after a filter expression and at the root) is executed next to its expansion with the axis functions, the filter head and the node tests uninterpreted: the two result term lists are identical.",
+  note="Partial: equalities between evaluator runs on whole documents beyond that term equivalence (sorting is left out on both sides) and left-associativity of the evaluator folds are outside. The operator-name-boundary deviation is a listed known finding.",
   design="3/C08", engine="S-grammar + S-kernel"),
  "C09": dict(
   technique="source-level symbolic execution (S-kernel) of xpath func.rs / model.rs / comparison helpers with an XPath 1.0 spec interpreter running in the same path exploration + SMT (z3 FP/BV) per path; counterexamples replayed through xml_xpath::query",
